@@ -314,6 +314,72 @@ def nested_overlap_cli(ctx, res):
             break
 
 
+def twice_included_cli(ctx, res):
+    """C01 / C03 through the binary: ONE pipeline included by two stages of an outer pipeline, the second inclusion reached while the first
+    is still running it; and the same pipeline named twice on the command line.  The run ends; nothing starts while a dependency of
+    its own is running; a stage that depends on an including stage starts only after every stage of the included pipeline has ended."""
+    import clilib
+
+    def mk(name, dur):
+        return {"command": ['f=$(mktemp "$PROJ/m.start.%s.XXXXXX"); date +%%s%%N > "$f"; sleep %s; g=$(mktemp "$PROJ/m.end.%s.XXXXXX"); date +%%s%%N > "$g"' % (name, dur, name)]}
+    jobs = []
+    for rep in range(6 if ctx.tier == "thorough" else 3):
+        for slow, dgap in (("0.6", "0.15"), ("0.4", "0.05")):
+            tasks = {"slow": mk("slow", slow), "y": mk("y", "0.05"), "d": mk("d", dgap), "e": mk("e", "0.02"), "f": mk("f", "0.02")}
+            pipes = {"pin": [{"task": "slow"}, {"task": "y", "depends_on": ["slow"]}],
+                     "pout": [{"pipeline": "pin", "name": "n1"}, {"task": "d"}, {"pipeline": "pin", "name": "n2", "depends_on": ["d"]},
+                              {"task": "e", "depends_on": ["n2"]}, {"task": "f", "depends_on": ["n1"]}]}
+            jobs.append({"id": len(jobs), "files": {"cfg.json": clilib.jcfg({"tasks": tasks, "pipelines": pipes})}, "argv": ["-c", "cfg.json", "--raw", "run", "pipeline", "pout"],
+                         "keepglob": "m.*", "timeout": 25, "form": "included-twice", "pipes": pipes})
+    tasks = {"slow": mk("slow", "0.2"), "y": mk("y", "0.02")}
+    pipes = {"pin": [{"task": "slow"}, {"task": "y", "depends_on": ["slow"]}]}
+    for argv in (["pin", "pin"], ["run", "pin", "pin"]):
+        jobs.append({"id": len(jobs), "files": {"cfg.json": clilib.jcfg({"tasks": tasks, "pipelines": pipes})}, "argv": ["-c", "cfg.json", "--raw"] + argv, "keepglob": "m.*", "timeout": 25,
+                     "form": "named-twice", "pipes": pipes})
+    out = clilib.run_cli(ctx.workdir + "/twice", jobs, timeout=25)
+    for j in jobs:
+        r = out[j["id"]]
+        res.evaluations += 1
+        res.count("twice-included-cli")
+        res.nontrivial_keys.add("twice-" + j["form"] + str(j["id"] % 2))
+        case = {"kind": "twice-included-cli", "form": j["form"], "argv": j["argv"], "pipelines": j["pipes"]}
+        if r["timeout"]:
+            res.violations.append({"class": None, "what": "a pipeline used twice in one run (%s): the run did not end within 25 s" % j["form"], "case": case, "observed": (r.get("err") or "")[-500:]})
+            continue
+        if clilib.crashed(r) or r["rc"] != 0:
+            res.violations.append({"class": None, "what": "a pipeline used twice in one run (%s): the run failed or crashed" % j["form"], "case": case, "observed": {"rc": r["rc"], "err": (r.get("err") or "")[-500:]}})
+            continue
+        ev = {}
+        for fn, txt in r["files"].items():
+            parts = fn.split(".")
+            if len(parts) == 4 and txt.strip().isdigit():
+                ev.setdefault((parts[1], parts[2]), []).append(int(txt.strip()))
+        INF = float("inf")
+        problems = []
+
+        def running_at(name, t):          # an execution of `name` in progress at time t (started before, not ended before)
+            ends = sorted(ev.get(("end", name), []))
+            for st in sorted(ev.get(("start", name), [])):
+                en = next((x for x in ends if x >= st), INF)
+                if st < t < en:
+                    return True
+            return False
+        for ystart in ev.get(("start", "y"), []):
+            if running_at("slow", ystart) or not [x for x in ev.get(("end", "slow"), []) if x <= ystart]:
+                problems.append("y started while its dependency slow was running (or before it had ended)")
+        if j["form"] == "included-twice":
+            inner_end = max(ev.get(("end", "slow"), [INF]) + ev.get(("end", "y"), [INF]))
+            for nm in ("e", "f"):
+                for st in ev.get(("start", nm), []):
+                    if st < inner_end or running_at("slow", st) or running_at("y", st):
+                        problems.append("%s (depends on a stage including the pipeline) started before every stage of the included pipeline had ended" % nm)
+                if not ev.get(("start", nm)):
+                    problems.append("%s never ran although its dependency completed" % nm)
+        if problems:
+            res.violations.append({"class": None, "what": "a pipeline used twice in one run (%s): %s" % (j["form"], problems[0]), "case": case,
+                                   "observed": {"%s.%s" % k: sorted(v) for k, v in sorted(ev.items())}})
+
+
 def real_overlap_cli(ctx, res):
     """C04 through the binary with the REAL task runner: two independent stages each leave a mark and wait (up to 4 s) for the other's mark: they
     can only both succeed if they run at the same time.  Varied: a shared named context with / without hooks, interactive tasks, one task
@@ -398,7 +464,7 @@ def nested_conderr_cli(ctx, res):
 
 def run(ctx, prop):
     res = vlib.Result()
-    extra_kinds = {"nested-cli": nested_cli, "nested-conderr-cli": nested_conderr_cli, "nested-overlap-cli": nested_overlap_cli, "real-overlap-cli": real_overlap_cli}
+    extra_kinds = {"nested-cli": nested_cli, "nested-conderr-cli": nested_conderr_cli, "nested-overlap-cli": nested_overlap_cli, "real-overlap-cli": real_overlap_cli, "twice-included-cli": twice_included_cli}
     if ctx.replay_cases and any(c.get("kind") in extra_kinds for c in ctx.replay_cases):
         # a replay of a case of one of the through-the-binary sections runs that section again
         for kind in sorted({c.get("kind") for c in ctx.replay_cases if c.get("kind") in extra_kinds}):
@@ -517,8 +583,10 @@ def run(ctx, prop):
                    for c, r in runs[:1] + runs[len(runs) // 2: len(runs) // 2 + 1]]
     if prop == "C01" and not ctx.replay_cases:
         nested_cli(ctx, res)
+        twice_included_cli(ctx, res)
     if prop == "C03" and not ctx.replay_cases:
         nested_conderr_cli(ctx, res)
+        twice_included_cli(ctx, res)
     if prop == "C04" and not ctx.replay_cases:
         nested_overlap_cli(ctx, res)
         real_overlap_cli(ctx, res)
